@@ -203,7 +203,7 @@ func TestExhaustiveWorkPanics(t *testing.T) {
 		}
 	}
 	stats.CaseN(n, n, "exhaustive_work_kind_x_value_x_position")
-	stats.Exhaustive("execution kind (12 work kinds) x panic value (13: nil, error, string, runtime index, nil deref, struct, custom error type, context.Canceled, wrapped context.Canceled, typed nil error pointer, slice, map, struct holding a slice) x position (alone, first, last among healthy items)")
+	stats.Exhaustive("execution kind (12 work kinds) x panic value (14: nil, error, string, runtime index, nil deref, struct, custom error type, context.Canceled, wrapped context.Canceled, typed nil error pointer, slice, map, struct holding a slice, *ModuleError) x position (alone, first, last among healthy items)")
 }
 
 // TestExhaustiveLifecyclePanics enumerates phase x panic value for a module inside a small graph.
@@ -233,6 +233,18 @@ func TestExhaustiveLifecyclePanics(t *testing.T) {
 					t.Fatalf("C06-lifecycle/%s", v.Error())
 				}
 				n++
+				if pk == "string" || pk == "error" || pk == "slice" {
+					// the same with a slow consumer of the reports: a channel of one or two entries that is read only after
+					// the call has returned. The panic is the first thing reported in that call, it finds room and is there
+					// when the consumer reads (what follows it may be dropped)
+					for _, cp := range []int{1, 2} {
+						slow := *sc
+						slow.ReportsCap = cp
+						judgeC06Only(t, &slow)
+						stats.Class("lifecycle_panic_reported_to_a_short_channel_with_a_slow_consumer")
+						n++
+					}
+				}
 				if stats.WantSample("lifecycle_table") {
 					stats.Sample("lifecycle_table", sc)
 				}
@@ -240,7 +252,7 @@ func TestExhaustiveLifecyclePanics(t *testing.T) {
 		}
 	}
 	stats.CaseN(n, n, "exhaustive_lifecycle_phase_x_value_x_module")
-	stats.Exhaustive("lifecycle routine (prep,start,stop) x panic value (13: nil, error, string, runtime index, nil deref, struct, custom error type, context.Canceled, wrapped context.Canceled, typed nil error pointer, slice, map, struct holding a slice) x position in a 3-module chain")
+	stats.Exhaustive("lifecycle routine (prep,start,stop) x panic value (14: nil, error, string, runtime index, nil deref, struct, custom error type, context.Canceled, wrapped context.Canceled, typed nil error pointer, slice, map, struct holding a slice, *ModuleError) x position in a 3-module chain")
 }
 
 func TestPropWorkPanics(t *testing.T) {
